@@ -1,7 +1,7 @@
 """E2 - call graph by class-hierarchy analysis with the repository's dispatch idiom."""
 import ast
 
-from .loader import AnalysisError, attr_path, enclosing, walk_no_nested_defs, walk_code, possible_strings, src, call_name
+from .loader import AnalysisError, attr_path, enclosing, walk_no_nested_defs, walk_code, possible_strings, src, call_name, resolve_test_name
 
 
 class CallGraph:
@@ -52,11 +52,12 @@ class CallGraph:
                                 out.setdefault(val, v.id)
         for f in funcs:
             for n in ast.walk(f.node):
-                if isinstance(n, ast.If) and isinstance(n.test, ast.Compare) and len(n.test.ops) == 1 \
-                        and isinstance(n.test.ops[0], ast.Eq):
-                    ok, val = self.prog.try_const(n.test.comparators[0], f.mod)
+                ntest = resolve_test_name(f.node, n.test) if isinstance(n, ast.If) else None
+                if isinstance(n, ast.If) and isinstance(ntest, ast.Compare) and len(ntest.ops) == 1 \
+                        and isinstance(ntest.ops[0], ast.Eq):
+                    ok, val = self.prog.try_const(ntest.comparators[0], f.mod)
                     if not ok:
-                        ok, val = self.prog.try_const(n.test.left, f.mod)
+                        ok, val = self.prog.try_const(ntest.left, f.mod)
                     if not ok or not isinstance(val, str):
                         continue
                     for st in n.body:
